@@ -57,7 +57,7 @@ def main():
                 "quick_cmd": "./check %s --tier quick" % pid,
                 "thorough_cmd": "./check %s --tier thorough" % pid,
                 "evidence_file": "evidence/%s.json" % pid,
-                "replay_cmd_template": "./check %s --replay {path}" % pid,
+                "replay_cmd_template": "./check %s --tier thorough --replay {path}" % pid,
                 "engine": "kani-cbmc",
                 "level_claimed": {"category": "model_checking", "text": text, "design_ref": ref},
                 "level_note": NOTE,
